@@ -75,7 +75,7 @@ func effRules(c *Ctx) {
 	c.Rule("EFF-G", "Outside package initialisers no instruction of the module writes memory whose origins include a package-level variable or its contents (one obligation per function: all its write sites classified).")
 	c.Rule("EFF-R", "Every write instruction (store, map update, append, copy, delete, writing external callee) in a function reachable from the read-path entry points (all exported functions and methods except the tree-constructing ones) targets only call-owned memory: allocations of the current call tree, objects of scratch types (unexported struct types none of whose allocation sites escapes), or the documented output parameter.")
 	c.Rule("EFF-X", "Calls leaving the module go only to standard-library packages not on the deny list (ambient/global state, scheduling, nondeterminism) or to the audited x/net/html/atom and x/text/cases; memory that is not call-owned is passed only to callees known to read their arguments.")
-	c.Rule("EFF-U", "Package unsafe is used only for the pointer conversions in Node.Block, Node.Inline, (*Inline).AsNode, (*Block).AsNode.")
+	c.Rule("EFF-U", "Package unsafe is used only for tagged node pointers: a *Block or *Inline is made untyped only when it is stored into Node.ptr next to a constant type tag (one distinct tag per pointee type), and Node.ptr is read back as *T only where the tag of that same Node is T's tag (exact, by BSET path-conditioning on the tag). No unsafe pointer arithmetic.")
 	c.Rule("DET", "No go statement, select, channel operation, pointer-to-integer conversion or %p formatting in module code; no range over a map whose body has an order-observable effect.")
 	c.Rule("SCRATCH", "A struct type is scratch iff it is unexported, every allocation site of it is non-escaping (never stored into non-local memory, passed to external code, returned from the exported API, sent or spawned), and no non-scratch module type can hold it in a field.")
 }
@@ -346,43 +346,179 @@ func mutableRef(t types.Type) bool {
 	return false
 }
 
-var unsafeAllowed = map[string]bool{"(Node).Block": true, "(Node).Inline": true, "(*Inline).AsNode": true, "(*Block).AsNode": true}
-
 func isUnsafePtr(t types.Type) bool {
 	b, ok := t.Underlying().(*types.Basic)
 	return ok && b.Kind() == types.UnsafePointer
 }
 
+// nodeFieldOf: v reads field f of a Node value; returns the base (the struct value, its spill slot or its address) and f.
+func nodeFieldOf(v ssa.Value) (base ssa.Value, field string, ok bool) {
+	switch x := v.(type) {
+	case *ssa.Field:
+		if typeName(x.X.Type()) == "Node" {
+			_, f := fieldInfo(x)
+			return x.X, f, true
+		}
+	case *ssa.UnOp:
+		if x.Op == token.MUL {
+			if fa, isFA := x.X.(*ssa.FieldAddr); isFA {
+				if tn, f, _ := fieldAddrInfo(fa); tn == "Node" {
+					return fa.X, f, true
+				}
+			}
+		}
+	}
+	return nil, "", false
+}
+
+// sameNodeBase: two bases denote the same Node value (identical value, or spill slot of the same parameter).
+func sameNodeBase(a, b ssa.Value) bool {
+	if a == b {
+		return true
+	}
+	norm := func(v ssa.Value) ssa.Value {
+		if al, ok := v.(*ssa.Alloc); ok {
+			for _, r := range refsOf(al) {
+				if st, ok := r.(*ssa.Store); ok && st.Addr == ssa.Value(al) {
+					if _, isP := st.Val.(*ssa.Parameter); isP {
+						return st.Val
+					}
+				}
+			}
+		}
+		return v
+	}
+	return norm(a) == norm(b)
+}
+
 func ruleEFFU(c *Ctx) {
 	n := 0
+	// pass 1: typed pointer → unsafe.Pointer conversions must be stored into Node.ptr next to a constant tag
+	tagOf := map[string]int64{}
+	type conv struct {
+		in   ssa.Instruction
+		fn   *ssa.Function
+		x    ssa.Value
+		from types.Type
+		to   types.Type
+	}
+	var toUnsafe, fromUnsafe []conv
 	for _, fn := range c.P.Funcs {
 		eachInstr(fn, func(in ssa.Instruction) {
-			var from, to types.Type
-			switch x := in.(type) {
+			var x ssa.Value
+			var to types.Type
+			switch y := in.(type) {
 			case *ssa.Convert:
-				from, to = x.X.Type(), x.Type()
+				x, to = y.X, y.Type()
 			case *ssa.ChangeType:
-				from, to = x.X.Type(), x.Type()
+				x, to = y.X, y.Type()
 			default:
 				return
 			}
-			if !isUnsafePtr(from) && !isUnsafePtr(to) {
-				return
+			from := x.Type()
+			switch {
+			case isUnsafePtr(to) && !isUnsafePtr(from):
+				toUnsafe = append(toUnsafe, conv{in, fn, x, from, to})
+			case isUnsafePtr(from) && !isUnsafePtr(to):
+				fromUnsafe = append(fromUnsafe, conv{in, fn, x, from, to})
 			}
-			n++
-			key := shortFuncName(fn)
-			other := to
-			if isUnsafePtr(to) {
-				other = from
-			}
-			_, isPtr := other.Underlying().(*types.Pointer)
-			tn := ""
-			if nn := namedOf(other); nn != nil {
-				tn = nn.Obj().Name()
-			}
-			ok := unsafeAllowed[key] && isPtr && (tn == "Block" || tn == "Inline")
-			c.Check(ok, "EFF-U", key, in.Pos(), fmt.Sprintf("unsafe conversion %s → %s must be one of the audited *Block/*Inline node conversions", from, to))
 		})
+	}
+	pointee := func(t types.Type) string {
+		if pt, ok := t.Underlying().(*types.Pointer); ok {
+			if nn := namedOf(pt.Elem()); nn != nil {
+				return nn.Obj().Name()
+			}
+		}
+		return ""
+	}
+	for _, cv := range toUnsafe {
+		n++
+		key := shortFuncName(cv.fn) + ":to-unsafe"
+		tn := pointee(cv.from)
+		if tn != "Block" && tn != "Inline" {
+			c.Viol("EFF-U", key, cv.in.Pos(), fmt.Sprintf("unsafe conversion of %s: only *Block and *Inline may be turned into untyped node pointers", cv.from))
+			continue
+		}
+		// stored into Node.ptr of some base; sibling store of a constant into Node.typ of the same base
+		var tag int64 = -1
+		okStore := false
+		for _, r := range refsOf(cv.in.(ssa.Value)) {
+			st, isSt := r.(*ssa.Store)
+			if !isSt {
+				continue
+			}
+			fa, isFA := st.Addr.(*ssa.FieldAddr)
+			if !isFA {
+				continue
+			}
+			if tnm, f, _ := fieldAddrInfo(fa); tnm != "Node" || f != "ptr" {
+				continue
+			}
+			okStore = true
+			for _, r2 := range refsOf(fa.X) {
+				fa2, isFA2 := r2.(*ssa.FieldAddr)
+				if !isFA2 {
+					continue
+				}
+				if _, f2, _ := fieldAddrInfo(fa2); f2 != "typ" {
+					continue
+				}
+				for _, r3 := range refsOf(fa2) {
+					if st2, ok := r3.(*ssa.Store); ok {
+						if k, isC := constInt(st2.Val); isC {
+							tag = k
+						}
+					}
+				}
+			}
+		}
+		if !okStore || tag < 0 {
+			c.Viol("EFF-U", key, cv.in.Pos(), "a typed node pointer is made untyped without being stored in a Node together with a constant type tag")
+			continue
+		}
+		if prev, seen := tagOf[tn]; seen && prev != tag {
+			c.Viol("EFF-U", key, cv.in.Pos(), fmt.Sprintf("*%s is tagged %d here and %d elsewhere", tn, tag, prev))
+			continue
+		}
+		for other, k := range tagOf {
+			if other != tn && k == tag {
+				c.Viol("EFF-U", key, cv.in.Pos(), fmt.Sprintf("*%s and *%s share the type tag %d", tn, other, tag))
+			}
+		}
+		tagOf[tn] = tag
+		c.OK("EFF-U", key, cv.in.Pos(), fmt.Sprintf("*%s stored with tag %d", tn, tag))
+	}
+	// pass 2: unsafe.Pointer → typed pointer only from Node.ptr and only where the tag of that very Node is the pointee's tag
+	bs := newBSET(c.P)
+	for _, cv := range fromUnsafe {
+		n++
+		key := shortFuncName(cv.fn) + ":from-unsafe"
+		tn := pointee(cv.to)
+		want, known := tagOf[tn]
+		base, f, isNodeField := nodeFieldOf(cv.x)
+		if !known || !isNodeField || f != "ptr" {
+			c.Viol("EFF-U", key, cv.in.Pos(), fmt.Sprintf("unsafe conversion unsafe.Pointer → %s that does not read the pointer of a tagged Node", cv.to))
+			continue
+		}
+		isTag := func(v ssa.Value) bool {
+			b2, f2, ok := nodeFieldOf(v)
+			return ok && f2 == "typ" && sameNodeBase(b2, base)
+		}
+		dom := make([]int64, 256)
+		for i := range dom {
+			dom[i] = int64(i)
+		}
+		reach := bs.reachUnderSym(cv.fn, isTag, dom)
+		var bad []int64
+		for d := range reach[cv.in.Block()] {
+			if d != want {
+				bad = append(bad, d)
+			}
+		}
+		sort.Slice(bad, func(i, j int) bool { return bad[i] < bad[j] })
+		c.Check(len(bad) == 0 && reach[cv.in.Block()][want], "EFF-U", key, cv.in.Pos(),
+			fmt.Sprintf("the node pointer is read as *%s where the Node's tag is not known to be %d (reachable for %d other tag values): the type-safety assumption of the analysis would not hold", tn, want, len(bad)))
 	}
 	// any other use of package unsafe (Sizeof etc. are constants; Add/Slice/String are builtins in SSA)
 	for _, fn := range c.P.Funcs {
@@ -568,6 +704,10 @@ func canReach(from, to *ssa.BasicBlock) bool {
 
 func init() {
 	addControls(
+		Control{Name: "inline-node-mistagged", Props: []string{"C19"}, File: "node.go",
+			Old: "\t\ttyp: nodeTypeInline,\n\t\tptr: unsafe.Pointer(inline),", New: "\t\ttyp: nodeTypeBlock,\n\t\tptr: unsafe.Pointer(inline),", Expect: "EFF-U/"},
+		Control{Name: "block-pointer-read-without-tag-test", Props: []string{"C19"}, File: "node.go",
+			Old: "\tif n.typ != nodeTypeBlock {\n\t\treturn nil\n\t}\n\treturn (*Block)(n.ptr)", New: "\tif n.typ == 0 {\n\t\treturn nil\n\t}\n\treturn (*Block)(n.ptr)", Expect: "EFF-U/(Node).Block:from-unsafe"},
 		Control{Name: "lowerBuf-hoisted-to-package-var", Props: []string{"C19"}, File: "html_renderer.go",
 			Old: "tagName := maybeLower(rawHTML[tagNameStart:tagNameEnd], &r.lowerBuf)", New: "tagName := maybeLower(rawHTML[tagNameStart:tagNameEnd], &sharedLowerBuf)",
 			Edits: [][2]string{{"type renderState struct {", "var sharedLowerBuf []byte\n\ntype renderState struct {"}}, Expect: "EFF-G/maybeLower"},
